@@ -155,6 +155,7 @@ def gen_exact(rng):
     hd = header(opt, rng.choice([0, 1, 2]) if box else 2, "boxquad" if box else "quad", n, [v for r_ in A for v in r_], b, x0, params, lower, upper)
     k = rng.randint(2, 7)
     if opt == "CG": k = min(k, 5 if n <= 2 else 4 if n == 3 else 3)      # the exact rationals of the model square in size with every beta
+    if opt == "LBFGS": k = min(k, 4 if n <= 2 else 3)                     # ... and with every stored pair of L-BFGS (the whole history is compared: pairs, m_bdiag, direction)
     if opt == "BFGS": k = min(k, 3 if n <= 2 else 2)                      # ... and with every update of the inverse Hessian (two updates: the second one starts from a non-identity matrix)
     ops = ["S"] * k
     if rng.random() < 0.7: ops.insert(rng.randint(0, k), "W")
@@ -294,8 +295,8 @@ def monitor(case, out):
         A = [h["A"][i * n:(i + 1) * n] for i in range(n)]
         cond = cond_of(case[0], A)
         hist = h["params"][0] if opt == "LBFGS" and h["params"] else 100
-        bud = budget(opt, ls, cond, hist, n)
-        if total >= bud:
+        bud = budget(opt, ls, cond, hist, n) if math.isfinite(cond) else None      # indefinite quadratics (L-BFGS case splits): no minimiser
+        if bud is not None and total >= bud:
             xs = solve(A, h["b"]); pt = fvec(kv(out[-1])["pt"])
             err = max(abs(a - b) for a, b in zip(pt, xs)); ref = 1 + max(abs(x) for x in xs)
             if not (err <= CONV_TOL * ref):
@@ -345,8 +346,8 @@ def compare(case, mo, io, stats):
             if degenerate and k not in ("pt", "val", "der"): continue
             if not stepped and k in ("lpt", "lder", "lval"): continue      # left uninitialised by init()
             if k not in db: return "line %d: implementation prints no %s" % (idx, k)
-            if k in ("cnt", "lstype"):
-                if va != db[k]: return "line %d: %s model %s, implementation %s" % (idx, "CG counter" if k == "cnt" else "line-search type", va, db[k])
+            if k in ("cnt", "lstype", "hk", "nh"):
+                if va != db[k]: return "line %d: %s model %s, implementation %s" % (idx, {"cnt": "CG counter", "lstype": "line-search type", "hk": "L-BFGS history length", "nh": "L-BFGS m_numHist"}[k], va, db[k])
                 continue
             xa = [qfrac(t) for t in va.split(",")] if va else []
             xb = fvec(db[k])
@@ -461,6 +462,101 @@ def judge_ls(line, out, mout):
             return mon, "%s: model %s, implementation %s" % (k, [float(x) for x in xa], xb), "diff"
     return mon, None, "exact"
 
+# ------------------------------------------------------------------ one-step replays from the implementation's own previous state
+REPLAY_TOL = 1e-10
+
+def gen_lbfgs(rng, big=False):
+    """L-BFGS histories for the case splits of updateHist / multBInv / getBoxConstrainedDirection: history shorter than,
+    equal to and longer than the memory; y's tiny (objective scaled by 2^-k so that y's crosses the 1e-10 threshold) or
+    negative (indefinite quadratic); small boxes with the start on a bound (fixed coordinates, Cauchy and dog-leg branch)"""
+    stream = rng.choice(["memory", "memory", "tiny", "negative", "box", "box", "box", "boxrosen"])
+    n = rng.randint(2, 6); hist = rng.choice([1, 2, 3, 5]); ls = rng.choice([0, 1, 2]); lower = upper = ()
+    kind = "quad"
+    if stream == "boxrosen":
+        kind = "boxrosen"; n = rng.randint(2, 4); p_ = rng.choice([1.0, 10.0, 100.0]); Af = [p_] + [0.0] * (n * n - 1); b = [0.0] * n
+        x0 = [rng.uniform(-1.5, 1.5) for _ in range(n)]
+    else:
+        A = spd(rng, n, rng.choice([1, 10, 100])); b = [rng.gauss(0, 3) for _ in range(n)]; x0 = [rng.uniform(-3, 3) for _ in range(n)]
+        if stream == "tiny":
+            c = 2.0 ** -rng.randint(8, 16); A = [[v * c for v in r] for r in A]; b = [v * c for v in b]
+        if stream == "negative":
+            j = rng.randrange(n); lam = -rng.choice([0.25, 1.0, 3.0]); ls = 2
+            for i in range(n): A[i][j] = A[j][i] = 0.0
+            A[j][j] = lam
+        Af = [v for r in A for v in r]
+        if stream == "box": kind = "boxquad"
+    if kind.startswith("box"):
+        lower = [x - (0.0 if rng.random() < 0.3 else rng.uniform(0, 1.5)) for x in x0]
+        upper = [x + (0.0 if rng.random() < 0.3 else rng.uniform(0.01, 1.5)) for x in x0]
+    hd = header("LBFGS", ls, kind, n, Af, b, x0, (hist,), lower, upper, fmt=hx)
+    k = hist + rng.randint(1, 4) if stream != "negative" else rng.randint(2, 4)
+    ops = ["S"] * k
+    if rng.random() < 0.4: ops.insert(rng.randint(1, k), "W")
+    return [hd] + ops
+
+def build_replays(cases, io):
+    """[(case index, line index, model line, previous state, new state)] for every single step S of an L-BFGS history
+    whose predecessor printed a state: the step is replayed by the model's updateHist + direction rule from the
+    IMPLEMENTATION's own previous history; y and s are recomputed here with the same two floating-point subtractions"""
+    reps = []
+    for ci, c in enumerate(cases):
+        t = c[0].split()
+        if t[0] != "I" or t[1] != "LBFGS": continue
+        out, rc, _ = io[ci]
+        h = None
+        for idx in range(1, min(len(c), len(out))):
+            if c[idx] != "S" or out[idx].startswith("EXC") or out[idx - 1].startswith("EXC"): continue
+            pre, post = kv(out[idx - 1]), kv(out[idx])
+            if "hs" not in pre or "hs" not in post or pre.get("fin") != "1" or post.get("fin") != "1": continue
+            if h is None: h = parse_header(c[0])
+            n = h["n"]; box = h["kind"].startswith("box")
+            g = fvec(post["der"]); y = [a - b_ for a, b_ in zip(g, fvec(post["lder"]))]; st = [a - b_ for a, b_ in zip(fvec(post["pt"]), fvec(post["lpt"]))]
+            if not all(math.isfinite(v) for v in g + y + st): continue
+            M = lambda vs: " ".join(me(v) for v in vs)
+            line = "B %d %s %d | %s %s | %s | %s | %s | %s | %s | %s | %s | %s" % (
+                n, pre["nh"], 1 if box else 0, me(fh(pre["bdiag"])), me(fh(pre["thres"])), M(fvec(pre["hs"])), M(fvec(pre["hy"])),
+                M(y), M(st), M(g), M(h["lower"]) if box else "", M(h["upper"]) if box else "", M(fvec(post["pt"])) if box else "")
+            reps.append((ci, idx, line, pre, post, (y, st, g, h)))
+    return reps
+
+def judge_lbfgs_replay(mout, pre, post, aux):
+    """(class, difference or None, monitor messages).  Monitor (implementation only): the stored direction is a descent
+    direction (g'd < 0 unless the gradient vanishes; box: g'd <= 0) and, with a box, point + direction is feasible."""
+    y, st, g, h = aux
+    d_impl = fvec(post["sdir"]); mon = []
+    gd = sum(Fraction(a) * Fraction(b_) for a, b_ in zip(g, d_impl)); box = h["kind"].startswith("box")
+    gmax = max([abs(v) for v in g] + [0.0])
+    if gd > 0 or (not box and gd == 0 and gmax > 0):
+        mon.append(("monitor:lbfgs-descent:" + ("box" if box else "free"), "the L-BFGS direction %s is not a descent direction at gradient %s: g'd = %r" % (d_impl, g, float(gd))))
+    if box:
+        x = fvec(post["pt"])
+        for i in range(len(x)):
+            if x[i] + d_impl[i] + 1e-13 < h["lower"][i] or x[i] + d_impl[i] - 1e-13 > h["upper"][i]:
+                mon.append(("monitor:lbfgs-box-direction", "point + direction leaves the box in coordinate %d: %r + %r not in [%r, %r]" % (i, x[i], d_impl[i], h["lower"][i], h["upper"][i]))); break
+    m = kv(mout)
+    if "dir" not in m: return "diff", "model printed `%s`" % mout[:100], mon
+    ys = qfrac(m["ys"]); thres = Fraction(fh(pre["thres"]))
+    noise = sum(abs(Fraction(a) * Fraction(b_)) for a, b_ in zip(y, st)) * Fraction(1, 10 ** 13)
+    if abs(ys - thres) <= noise: return "threshold-rounding-sensitive", None, mon
+    nh, k0, k1 = int(pre["nh"]), int(pre["hk"]), int(m["hk"])
+    cls = (("stored-" + ("history-short" if k1 < nh else "history-reaches-memory" if k0 < nh else "oldest-dropped")) if m["stored"] == "1"
+           else "skipped-tiny" if ys > 0 else "skipped-nonpositive") + "/" + m["branch"]
+    if m["hk"] != post["hk"] or post["hk"] != post["hky"]: return cls, "history length: model %s, implementation %s (steps) / %s (gradient differences)" % (m["hk"], post["hk"], post["hky"]), mon
+    if m["nh"] != post["nh"]: return cls, "m_numHist: model %s, implementation %s" % (m["nh"], post["nh"]), mon
+    for k in ("hs", "hy"):
+        xa = [qfrac(t) for t in m[k].split(",")] if m[k] else []; xb = fvec(post[k])
+        if len(xa) != len(xb) or any(Fraction(q) != p_ for p_, q in zip(xa, xb)):
+            return cls, "history %s: model %s, implementation %s" % (k, [float(v) for v in xa], xb), mon
+    bm, bi = float(qfrac(m["bdiag"])), fh(post["bdiag"])
+    if not abs(bm - bi) <= REPLAY_TOL * abs(bm): return cls, "m_bdiag: model %r, implementation %r" % (bm, bi), mon
+    dm = [qfrac(t) for t in m["dir"].split(",")] if m["dir"] else []
+    if len(dm) != len(d_impl): return cls, "direction has %d entries in the model, %d in the implementation" % (len(dm), len(d_impl)), mon
+    # scale of the rounding errors of the two-loop recursion: the largest entry of the result and of the input scaled by 1/bdiag
+    sc = max([abs(float(v)) for v in dm] + [gmax / abs(bm) if bm else 0.0])
+    err = max([abs(float(p_) - q) for p_, q in zip(dm, d_impl)] + [0.0])
+    if not err <= REPLAY_TOL * sc: return cls, "direction: model %s, implementation %s (max difference %.3g > %g * %.3g)" % ([float(v) for v in dm], d_impl, err, REPLAY_TOL, sc), mon
+    return cls, None, mon
+
 def read_cases(path):
     cases = []
     for l in open(path).read().split("\n"):
@@ -521,6 +617,7 @@ def main():
         cases += [list(c) for c in REGRESSION_HISTORIES]
         cases += [gen_exact(rng) for _ in range(700 if not big else 6000)]
         cases += [gen_float(rng, big) for _ in range(900 if not big else 6000)]
+        cases += [gen_lbfgs(rng, big) for _ in range(400 if not big else 4000)]
 
 
     # ------------------------------------------------------------------ single line-search calls: implementation first, its trial
@@ -652,6 +749,35 @@ def main():
     ck.oblige("correspondence C10Model vs AbstractLineSearchOptimizer/backtracking/CG/SteepestDescent on %d histories (%d state lines exact, %d at 1e-9)" % (
         sum(1 for m_ in mo if any(x not in ("-", "?") for x in m_[0])), stats["exact"], stats["tol"]), not dis,
         "" if not dis else "%d disagreements, first: %s" % (len(dis), dis[0][1]))
+
+    # ------------------------------------------------------------------ one-step replays of the model's direction rules from the
+    # implementation's own previous state (L-BFGS: updateHist + multBInv / getBoxConstrainedDirection)
+    reps = build_replays(cases, io)
+    rout = run_cases(model, [[r[2]] for r in reps], os.path.join(tmpd, "replay_model.txt"))
+    rstats = {}; rdis = []; rmon = {}
+    for ri, ((ci, idx, line, pre, post, aux), (o_, rc_, e_)) in enumerate(zip(reps, rout)):
+        if rc_ != 0 or not o_: raise RuntimeError("model driver failed on the replay line %s: %s" % (line[:300], e_))
+        cls, diff, msgs = judge_lbfgs_replay(o_[0], pre, post, aux)
+        rstats[cls] = rstats.get(cls, 0) + 1
+        for key, msg in msgs[:1]: rmon.setdefault(key, []).append((ri, msg))
+        if diff: rdis.append((ri, diff))
+    def replay_obj(ri, key):
+        ci, idx, line, pre, post, aux = reps[ri]
+        cf = ck.write_replay("case_%s_%d.txt" % (re.sub(r"[^A-Za-z0-9]+", "_", key)[:60], ri), "\n".join(cases[ci][:idx + 1]) + "\n")
+        return {"case_file": cf, "case": cases[ci][:idx + 1], "step_replayed": "line %d" % idx, "implementation_state_before": io[ci][0][idx - 1], "implementation_state_after": io[ci][0][idx],
+                "model_input": line, "model_output": rout[ri][0][0], "replay_cmd": "python3 tools/c10.py --replay %s" % cf}
+    for key in sorted(rmon):
+        ri, msg = rmon[key][0]
+        ck.violation(key, replay_obj(ri, key), "spec monitor fails on the implementation's direction (%d steps): %s" % (len(rmon[key]), msg))
+    n_unknown_r = sum(len(v) for k, v in rmon.items() if ck.match_known(k) is None)
+    ck.oblige("spec monitors on %d L-BFGS directions (descent direction; point + direction inside the box)" % len(reps), n_unknown_r == 0, "" if n_unknown_r == 0 else "keys %s" % sorted(rmon)[:4])
+    if rdis and n_unknown_r == 0:
+        ri, diff = rdis[0]; rp = replay_obj(ri, "correspondence-lbfgs"); rp["difference"] = diff
+        rp["broken"] = "correspondence C10LbfgsModel (lb_update_hist / lb_mult_binv / lb_box_dir) vs LBFGS.cpp (updateHist / multBInv / getBoxConstrainedDirection)"
+        ck.violation("correspondence-lbfgs", rp, "correspondence of the L-BFGS model no longer checks (%d of %d replayed steps differ, first: %s); the spec monitors pass on every explored input" % (len(rdis), len(reps), diff), no_input=True)
+    ck.oblige("correspondence C10LbfgsModel (history update, two-loop recursion, box direction) vs LBFGS.cpp on %d steps replayed from the implementation's own state (%s)" % (
+        len(reps), ", ".join("%s %d" % kv_ for kv_ in sorted(rstats.items()))), not rdis, "" if not rdis else "%d disagreements, first: %s" % (len(rdis), rdis[0][1]))
+    ck.cov["lbfgs_replayed_steps"] = rstats
 
     # ------------------------------------------------------------------ coverage
     steps = sum(steps_of(l) for c in cases for l in c[1:])
